@@ -1,1 +1,81 @@
-import Dbg.Model.Pipeline
+import Dbg.Props.C03
+/-! # C19 — Index construction is schedule-independent and lookups are exact
+
+What a theorem can carry here: the two `BoomHashMap`s of a finished graph are used only through `get`, whose
+contract is exact lookup among the inserted keys.  `ExactIndex` states that contract for an arbitrary lookup
+function; on graphs whose node ends are distinct there is exactly one such function (`C19_index_unique`), so every
+query that goes through the index — link lookups, edge lists, pruning — has the same answer for *any* builder
+(parallel or serial, any schedule, any internal layout) that meets the contract (`C19_queries_determined`).
+That the real parallel builder meets the contract under every schedule is explored by execution, not proved. -/
+namespace Graph
+open Compress (Seq Base Exts rc extend Node)
+open Walk (Dir)
+variable {D : Type}
+
+/-- exact lookup among the nodes' terminal k-mers -/
+def ExactIndex (g : G D) (ix : Seq → Dir → Option Nat) : Prop :=
+  (∀ km side i, ix km side = some i → ∃ nd, g.nodes[i]? = some nd ∧ termKmer g.K nd.seq side = km) ∧
+  (∀ km side, ix km side = none → ∀ nd ∈ g.nodes, termKmer g.K nd.seq side ≠ km)
+
+/-- node ends are distinct per side (true of every valid graph: a k-mer occurs once) -/
+def TermDistinct (g : G D) : Prop :=
+  ∀ (side : Dir) (i j : Nat) (ni nj : Node D), g.nodes[i]? = some ni → g.nodes[j]? = some nj →
+    termKmer g.K ni.seq side = termKmer g.K nj.seq side → i = j
+
+/-- the model's lookup satisfies the contract -/
+theorem searchKmer_exact (g : G D) : ExactIndex g (searchKmer g) := by
+  refine ⟨fun km side i h => searchKmer_sound g km side i h, ?_⟩
+  intro km side h nd hm he
+  have := (searchKmer_complete g km side).mpr ⟨nd, hm, he⟩
+  simp [h] at this
+
+/-- **C19.** On a graph with distinct node ends every exact index is the same function. -/
+theorem C19_index_unique (g : G D) (hd : TermDistinct g) (ix : Seq → Dir → Option Nat) (hx : ExactIndex g ix) :
+    ∀ km side, ix km side = searchKmer g km side := by
+  intro km side
+  have hs := searchKmer_exact g
+  cases h1 : ix km side with
+  | none =>
+    cases h2 : searchKmer g km side with
+    | none => rfl
+    | some j =>
+      obtain ⟨nd, e1, e2⟩ := hs.1 km side j h2
+      exact absurd e2 (hx.2 km side h1 nd (List.mem_of_getElem? e1))
+  | some i =>
+    obtain ⟨ni, a1, a2⟩ := hx.1 km side i h1
+    cases h2 : searchKmer g km side with
+    | none => exact absurd a2 (hs.2 km side h2 ni (List.mem_of_getElem? a1))
+    | some j =>
+      obtain ⟨nj, b1, b2⟩ := hs.1 km side j h2
+      rw [hd side i j ni nj a1 b1 (by rw [a2, b2])]
+
+/-- `find_link` through an arbitrary index -/
+def findLinkWith (g : G D) (ix : Seq → Dir → Option Nat) (kmer : Seq) (dir : Dir) : Option (Nat × Dir × Bool) :=
+  match dir with
+  | .L =>
+    match ix kmer .R with
+    | some idx => some (idx, .R, false)
+    | none => if !g.stranded then (match ix (rc kmer) .L with | some idx => some (idx, .L, true) | none => none) else none
+  | .R =>
+    match ix kmer .L with
+    | some idx => some (idx, .L, false)
+    | none => if !g.stranded then (match ix (rc kmer) .R with | some idx => some (idx, .R, true) | none => none) else none
+
+theorem findLink_eq_with (g : G D) (kmer : Seq) (dir : Dir) : findLink g kmer dir = findLinkWith g (searchKmer g) kmer dir := by
+  unfold findLink findLinkWith; cases dir <;> rfl
+
+/-- **C19 (queries are determined by the graph alone).** Two builders whose maps meet the lookup contract answer every
+    link query identically — hence every edge list, pruning decision and walk, which are functions of link queries. -/
+theorem C19_queries_determined (g : G D) (hd : TermDistinct g) (ix₁ ix₂ : Seq → Dir → Option Nat)
+    (h₁ : ExactIndex g ix₁) (h₂ : ExactIndex g ix₂) (kmer : Seq) (dir : Dir) :
+    findLinkWith g ix₁ kmer dir = findLinkWith g ix₂ kmer dir := by
+  have e1 := C19_index_unique g hd ix₁ h₁
+  have e2 := C19_index_unique g hd ix₂ h₂
+  unfold findLinkWith
+  simp only [e1, e2]
+
+/-- **C19 (exact lookups).** A k-mer is found as a node end exactly when some node starts (left map) or ends (right map) with it. -/
+theorem C19_search_exact (g : G D) (km : Seq) (side : Dir) :
+    (searchKmer g km side).isSome ↔ ∃ nd ∈ g.nodes, termKmer g.K nd.seq side = km := searchKmer_complete g km side
+
+end Graph
